@@ -654,7 +654,6 @@ def main():
         status["extspec"] = {"theorems": index, "skipped": skipped, "files": sorted(files)}
     except Exception as e:
         status["extspec"] = {"error": traceback.format_exc(limit=3)}
-    status["wall_s"] = round(time.time() - t0, 2)
     write_if_changed(os.path.join(GEN_DIR, "STATUS.json"), json.dumps(status, indent=1, sort_keys=True))
     bad = [k for k, v in status["modules"].items() if not v["ok"]]
     print("gen: %d modules, %d dispatch entries, %.1fs%s" % (
